@@ -582,7 +582,9 @@ class Framer(tasking.Tasker):
             ScheduleNames[self.schedule],
             self.name))
 
-        exits = self.actives[:]  #make copy of self.actives so can reverse it
+        #exit the full outline of the active frame not .actives since a conditional
+        #aux truncates .actives but the suspended lower frames are still entered
+        exits = self.active.outline[:] if self.active else []  #copy so can reverse it
         self.exit(exits) #exits is reversed in place in exit()
         self.deactivate()
         if not abort:
